@@ -24,19 +24,27 @@ ASSUME TLCSet(1, 0) /\ TLCSet(2, << >>)
 Note(rec) == TLCSet(2, Append(TLCGet(2), rec))
 Must(cond, rec) == IF cond THEN TRUE ELSE Note(rec)
 
+\* the CRC clause of C04 for a 14-byte header given as bytes: "mismatch" must be
+\* rejected by every routine whatever else the header holds; "match" must be
+\* accepted by every routine when nothing else is wrong with the header
+CrcState(b) == IF Len(b) < 14 \/ b[1] # 14 THEN "n/a"
+               ELSE LET stored == b[13] + 256 * b[14] IN
+                    IF stored = 0 THEN "zero"
+                    ELSE IF stored = H!Crc(SubSeq(b, 1, 12)) THEN "match" ELSE "mismatch"
+BreaksClause(cs, exp, obs) == (cs = "mismatch" /\ obs = "none") \/ (cs = "match" /\ exp = "none" /\ obs # "none")
+
 HRec(j) == [size |-> j.size, proto |-> j.proto, profile |-> j.profile, ds |-> j.ds, dtype |-> j.dtype, crc |-> j.crc]
-AboutCrc(a, b) == {a, b} \subseteq {"none", "crc"} /\ a # b
 
 CheckDecode(e, k) ==
     LET r == H!DecodeHeaderImpl(e.in) IN
-    /\ Must(r.err = e.err, [event |-> k, what |-> "DecodeHeader verdict", expected |-> r.err, observed |-> e.err, contract |-> AboutCrc(r.err, e.err)])
+    /\ Must(r.err = e.err, [event |-> k, what |-> "DecodeHeader verdict", expected |-> r.err, observed |-> e.err, contract |-> BreaksClause(CrcState(e.in), r.err, e.err)])
     /\ IF r.err = "none" /\ e.err = "none"
        THEN Must(r.h = HRec(e.h), [event |-> k, what |-> "DecodeHeader returned header", expected |-> r.h, observed |-> HRec(e.h), contract |-> FALSE])
        ELSE TRUE
 
 CheckMethod(e, k) ==
     LET x == H!MethodImpl(HRec(e.h)) IN
-    Must(x = e.err, [event |-> k, what |-> "Header.CheckIntegrity verdict", expected |-> x, observed |-> e.err, contract |-> AboutCrc(x, e.err)])
+    Must(x = e.err, [event |-> k, what |-> "Header.CheckIntegrity verdict", expected |-> x, observed |-> e.err, contract |-> BreaksClause(CrcState(H!Wire(HRec(e.h))), x, e.err)])
 
 CheckMarshal(e, k) ==
     LET w == H!MarshalImpl(HRec(e.h)) IN
